@@ -30,9 +30,40 @@ def frag_cfg(path, ty, maxlen, maxbudget, emit):
     tlc.write_cfg(path, lines)
 
 
+def apalache_inductive(ctx, wd):
+    """unbounded: the tiling arithmetic of a transfer (spec/FragInd.tla) as an inductive invariant, for any length, element
+    size and budget -- Init => IndInv, IndInv /\\ Next => IndInv', IndInv => the transfer can continue"""
+    import shutil
+    import subprocess
+    import tempfile
+    exe = shutil.which("apalache-mc")
+    if not exe:
+        ctx.machinery.append("apalache-mc not found")
+        return
+    out = tempfile.mkdtemp(prefix="apa_")
+    results = []
+    try:
+        for args in (["--init=Init", "--inv=IndInv", "--length=0"], ["--init=IndInit", "--inv=IndInv", "--length=1"],
+                     ["--init=IndInit", "--inv=Live", "--length=0"]):
+            p = subprocess.run([exe, "check", "--cinit=CInit"] + args + ["--out-dir=" + out, "FragInd.tla"], cwd=wd, stdout=subprocess.PIPE,
+                               stderr=subprocess.STDOUT, universal_newlines=True, timeout=900)
+            ok = "The outcome is: NoError" in p.stdout
+            results.append({"args": " ".join(args), "ok": ok})
+            if not ok:
+                if "violat" in p.stdout:
+                    ctx.violation("inductive_invariant", {"apalache": args, "output": p.stdout[-1500:]},
+                                  what="FragInd.tla: apalache-mc %s reports a violation" % " ".join(args))
+                else:
+                    ctx.machinery.append("apalache-mc %s failed: %s" % (" ".join(args), p.stdout[-400:]))
+    finally:
+        shutil.rmtree(out, ignore_errors=True)
+    ctx.ev.extra["apalache_inductive_invariant"] = results
+
+
 def main(ctx):
     ev = ctx.ev
     wd = core.workdir()
+    apalache_inductive(ctx, wd)
     rng = random.Random(ctx.seed)
     types = TYPES_Q if ctx.quick else TYPES_T
     maxlen = 5 if ctx.quick else 7
